@@ -1838,3 +1838,105 @@ func onlyCalledFromAllowed(p *Prog, f *ssa.Function, allowed map[string]bool, de
 	}
 	return ok && n > 0
 }
+
+// checkCaseConstantAgreement is a sibling cross-check: functions of pkg that switch on a parameter
+// of the named enum type and pick string constants per case (key prefixes, index keys) must pick
+// the same constants for the same case. The function that deviates from the others is reported.
+func checkCaseConstantAgreement(r *Report, rule, pkg, enumType string, minSiblings int) {
+	type table map[string][]string // case value -> constants chosen (sorted)
+	tabs := map[*ssa.Function]table{}
+	for _, f := range r.P.FuncsIn(pkg) {
+		var sel *ssa.Parameter
+		for _, p := range f.Params {
+			if n, ok := p.Type().(*types.Named); ok && n.Obj().Name() == enumType {
+				sel = p
+			}
+		}
+		if sel == nil {
+			continue
+		}
+		t := table{}
+		Instrs(f, func(in ssa.Instruction) {
+			ph, ok := in.(*ssa.Phi)
+			if !ok {
+				return
+			}
+			for i, e := range ph.Edges {
+				k, isC := e.(*ssa.Const)
+				if !isC || k.Value == nil || k.Value.Kind() != constant.String || constant.StringVal(k.Value) == "" {
+					continue
+				}
+				pred := ph.Block().Preds[i]
+				var caseVal string
+				fs := localFacts(pred)
+				// the edge itself
+				if len(pred.Instrs) > 0 {
+					if iff, ok := pred.Instrs[len(pred.Instrs)-1].(*ssa.If); ok {
+						for si, sb := range pred.Succs {
+							if sb == ph.Block() {
+								c, pol := normCond(iff.Cond, si == 0)
+								fs = append(fs, Fact{Cond: c, Pol: pol})
+							}
+						}
+					}
+				}
+				for _, ft := range fs {
+					bo, ok := ft.Cond.(*ssa.BinOp)
+					if !ok || bo.Op != token.EQL || !ft.Pol || stripValue(bo.X) != ssa.Value(sel) {
+						continue
+					}
+					if kc, ok := bo.Y.(*ssa.Const); ok && kc.Value != nil {
+						caseVal = kc.Value.ExactString()
+					}
+				}
+				if caseVal != "" {
+					t[caseVal] = append(t[caseVal], constant.StringVal(k.Value))
+				}
+			}
+		})
+		if len(t) > 0 {
+			for k := range t {
+				sort.Strings(t[k])
+			}
+			tabs[f] = t
+		}
+	}
+	if len(tabs) < minSiblings {
+		r.Fail(rule, 0, fmt.Sprintf("only %d functions choosing constants per %s case found in %s (%d confirmed by hand)", len(tabs), enumType, pkg, minSiblings), pkg, "case-constants:floor")
+		return
+	}
+	// majority constant set per (case, position)
+	votes := map[string]map[string]int{}
+	for _, t := range tabs {
+		for k, cs := range t {
+			if votes[k] == nil {
+				votes[k] = map[string]int{}
+			}
+			for _, c := range cs {
+				votes[k][c]++
+			}
+		}
+	}
+	var fns []*ssa.Function
+	for f := range tabs {
+		fns = append(fns, f)
+	}
+	sort.Slice(fns, func(i, j int) bool { return fns[i].Pos() < fns[j].Pos() })
+	for _, f := range fns {
+		bad := ""
+		for k, cs := range tabs[f] {
+			for _, c := range cs {
+				if votes[k][c]*2 <= len(tabs) && len(tabs) > 1 {
+					bad = fmt.Sprintf("case %s uses %q, which the sibling functions do not use for that case", k, c)
+				}
+				// the same constant used for another case elsewhere = crossed families
+				for k2, v2 := range votes {
+					if k2 != k && v2[c]*2 > len(tabs) {
+						bad = fmt.Sprintf("case %s uses %q, which the sibling functions use for case %s", k, c, k2)
+					}
+				}
+			}
+		}
+		r.Ob(rule, f.Pos(), bad == "", "save / load / remove of the persisted list choose the same storage keys for the same list type ("+bad+")", r.P.FuncName(f), "case-constants-agree")
+	}
+}
